@@ -104,7 +104,7 @@ def judge(ctx, path, driver):
     ev = vlib.read_ndjson(path)
     for f in fails:
         e = ev[f["i"] - 1]
-        ctx.report(classify(e, f["mon"]), {"driver": driver, "event": e})
+        ctx.report(dict(classify(e, f["mon"]), conforms=f.get("conforms", True)), {"driver": driver, "event": e})
     return ev, len(r.tagged("STAT"))
 
 
